@@ -218,6 +218,14 @@ def drv(c, ctx, col):
         if R.shape != G.shape or not np.allclose(R, G, rtol=1e-12, atol=1e-12, equal_nan=True):
             col.violation(key, dict(detail, path=list(path), part=G.tolist(), regenerated=R.tolist()), sig="spec-does-not-regenerate-part")
             return
+        # ... and also when an attribute override (here: the output type it already has) rides along with the drop set
+        supplied = set(joint)
+        regen2 = sl[path].get_model_matrix(df, drop_rows=supplied, context=CTX, output=output)
+        R2 = dense(regen2)
+        if R2.shape != G.shape or not np.allclose(R2, G, rtol=1e-12, atol=1e-12, equal_nan=True) or not supplied >= set(joint):
+            col.violation(key, dict(detail, path=list(path), part=G.tolist(), regenerated=R2.tolist(), drop_set=sorted(supplied)),
+                          sig="spec-with-override-does-not-regenerate-part")
+            return
 
 
 def subchecks(tier, seed):
